@@ -69,7 +69,7 @@ type world struct {
 	nshrunk int
 	named   map[string]int // tx hash -> verified account, for transactions whose sender field is a name
 	nknown  int
-	known   string         // class id to tag the next oracle failure with (set around one operation only)
+	known   string            // class id to tag the next oracle failure with (set around one operation only)
 	cost    map[string]string // tx hash -> what ValidateWithSenderState compares with the balance (node sessions: amount + fee)
 	node    *cnode            // non-nil in a chain-service session
 }
@@ -562,7 +562,6 @@ func (w *world) replayPool(ops []string) (verdict string) {
 	}
 	return ""
 }
-
 
 // ---------------------------------------------------------------- pool operations
 
